@@ -193,15 +193,23 @@ claim("C16", "Lean 4 theorems (all loss sequences of pairwise-distinct values of
       "sampled settings) x patience x max x return_best, jit enabled and disabled, single- and multi-batch epochs.",
       _TB2 + " Ties and NaN losses are outside the property's quantifier (the model resolves ties as the code does, unproved).", "DESIGN.md §5 C16")
 
-claim("C04", "Lean 4 theorems (Mathlib change of variables) about definitions regenerated from the source (py2lean) + Float correspondence; quadrature/KS oracle on the real code when a tie breaks",
-      "PARTIAL. Proved: the change-of-variables density preserves total mass and is the law of the transformed sample (finite-dimensional, 1-D, and 1-D with finitely many kinks); "
-      "for the generated AbstractTransformed methods, any depth of nested Transformed over layers that are lawful bijections of R with correct inverse log-dets integrates to one when the base does, "
+claim("C04", "Lean 4 theorems (Mathlib change of variables) about definitions regenerated from the source (py2lean) and hand models of the network bijections + Float correspondence; quadrature/KS oracle on the real code when a tie breaks",
+      "PARTIAL. Proved: the change-of-variables density preserves total mass and is the law of the transformed sample (finite-dimensional — everywhere differentiable or with finitely many measurable pieces —, 1-D, and 1-D with finitely many kinks); "
+      "for the generated AbstractTransformed methods, any depth of nested Transformed over layers that are lawful bijections with correct inverse log-dets integrates to one when the base does, "
       "for every condition, and the law of `sample` has density exp(log_prob) whenever the base sampler's law has density exp(base log_prob); these layer hypotheses are discharged for the generated "
-      "Affine/Scale/Loc (any non-zero scale), LeakyTanh (any max_val > 0, switch points included) and RationalQuadraticSpline (any constructor-reachable parameters, one-sided derivatives at the interval ends); "
-      "the generated StandardNormal log-density is normalised; Tanh is not onto R and its pull-back only collects the base mass in (-1,1).",
-      _TB + " PARTIAL: PRNG statistics (that the base sampler draws from the base density) and rounding are outside; BNAF's sampling direction uses the numerical inverter so 'samples follow the density' "
-      "holds up to C10's tolerance; d-dimensional normalisation and sampler law are proved for stacks of affine coupling layers with differentiable conditioners (any depth, any condition); for MAF/Planar/BNAF "
-      "they remain reduced to hypotheses (lawful bijection + Jacobian of the inverse + reported log-det, `Mass.InvJacN`; the Jacobians themselves are C02's theorems). The correspondence is C03's (same generated definitions).", "DESIGN.md §5 C04")
+      "Affine/Scale/Loc (any non-zero scale), LeakyTanh (any max_val > 0, switch points included) and RationalQuadraticSpline (any constructor-reachable parameters, one-sided derivatives at the interval ends) in one dimension, "
+      "and IN d DIMENSIONS, with no Jacobian hypothesis left, for every flow architecture's layer in either orientation (Transformed(base, b) and Transformed(base, Invert(b)), the factories' default): "
+      "affine Coupling (every differentiable conditioner), MaskedAutoregressive with the affine transformer (every well-shaped masked network with differentiable activation — differentiability of the whole network is proved —, "
+      "loc/scale any differentiable functions of the parameter row, in particular ps[0]+a / softplus(ps[1]+b)), Planar with tanh (the generated forward map is proved to be a bijection of R^n for every w != 0: strictly increasing "
+      "and onto along u-hat, identity across; the density the code evaluates, p(f(x))|det J_f(x)|, integrates to one; the unimplemented inverse is the mathematical one) and with leaky relu (0 < slope <= 1; two affine pieces, kink on a hyperplane), "
+      "also with parameters computed from the condition, BlockAutoregressiveNetwork with the default LeakyTanh (any max_val > 0) or any activation with act' > 0 onto R (bijectivity of the forward map on R^n, the code's own log-space log-det), "
+      "Flip and Permute (every permutation the constructor accepts); hence any depth and any mixture of these layers over a normalised base integrates to one at every condition (also as ONE Transformed over the Chain, merge_transforms) and its "
+      "sampler has law exp(log_prob); concrete instances (a conditional tanh MAF, planar, BNAF and a mixed MAF-Flip-BNAF flow over StandardNormal((2,))) are proved normalised; "
+      "the generated StandardNormal log-density is normalised (scalar and (n,)); Tanh is not onto R and its pull-back only collects the base mass in (-1,1).",
+      _TB + " PARTIAL: PRNG statistics (that the base sampler draws from the base density) and rounding are outside; BNAF's sampling direction uses the numerical inverter and Planar(tanh) implements no inverse, so for those 'samples follow "
+      "the density' is proved for the exact inverse (C10 bounds the inverter's error); conditioners with the default relu activation are differentiable only off a null set (finitely many hyperplane preimages) and are outside the theorems "
+      "(the quadrature oracle covers them); spline transformers inside Coupling/MAF are covered in one dimension only; excluded parameter point w = 0 of Planar (the code returns NaN there). The correspondence is C03's plus the network "
+      "models' (netinv, bnafld), Planar's and the permutation layers', all re-run by C04's check.", "DESIGN.md §5 C04")
 
 claim("C06", "Lean 4 theorems about a hand-written executable model of the batching layer + differential correspondence with the real methods",
       "In the model of _vectorize/_check_shapes/_get_sample_keys/_get_ufunc_signature and of jnp.vectorize's signature parsing, broadcasting and element "
